@@ -215,7 +215,7 @@ func ruleReadonlyVerdictIsRechecked(c *eng.Ctx) {
 	still := eng.BoolEdges(fn, eng.Call(-1, cl+"commitLog.isReadonlyEnd"), true)
 	n := 0
 	for _, r := range eng.Returns(fn) {
-		if !eng.Global(cl + "ErrCommitLogReadonly")(r.Results[0]) {
+		if !eng.Global(cl + "ErrCommitLogReadonly")(eng.RetVals(r)[0]) {
 			continue
 		}
 		n++
